@@ -74,7 +74,16 @@ class ConMk:
         return t
 
     def index(self, name: str, shape: Sequence[Any], high: Any) -> torch.Tensor:
-        t = torch.randint(0, int(high), tuple(int(s) for s in shape), generator=self.gen)
+        # every index value occurs when the tensor is large enough (cyclic, then shuffled): a special index (padding_idx, ignore_index)
+        # is then certainly present in the replay data, next to ordinary ones
+        sh = tuple(int(s) for s in shape)
+        n = 1
+        for v in sh:
+            n *= v
+        t = (torch.arange(n) % max(int(high), 1))
+        if n > 1:
+            t = t[torch.randperm(n, generator=self.gen)]
+        t = t.reshape(sh)
         self.tensors[name] = t
         return t
 
@@ -616,6 +625,11 @@ def harness(cfg: Dict[str, Any], props: Sequence[str]) -> Callable[[Ctx], Any]:
             G = STensor.leaf("G", out.shape, out.dtype)
             factors: Dict[str, Any] = {"out": kf}
             need_bwd = any(p in props for p in ("C02", "C03", "C05"))
+            if need_bwd and mism and "C01" not in props:
+                # never vacuous: if the forward value does not unify with the reference, the gradient claims cannot even be stated
+                # symbolically - the real code decides them (free upstream gradient, two data draws)
+                c.oblige("grad: gradients = a * reference gradients (forward value did not unify with the reference)", z3.BoolVal(False),
+                         info={**base, "claim": "grad", "input": next(iter(call.diff), "out"), "mismatch": mism})
             if need_bwd and not mism:
                 for t in call.diff.values():
                     t.grad = None
@@ -752,7 +766,9 @@ def _ratio_c(a: torch.Tensor, b: torch.Tensor) -> Tuple[float, float]:
         return 1.0, 0.0
     big = b.abs() > 1e-9 * max(b.abs().max().item(), 1e-300)
     if not big.any():
-        return (float("nan"), float("inf")) if a.abs().max() > 0 else (1.0, 0.0)
+        # reference identically zero: a non-zero result is no multiple of it; zero against zero carries no factor at all (nan = not
+        # measurable at this size, e.g. the gradient of a softmax over one element) - a replay can never confirm anything with it
+        return (float("nan"), float("inf")) if a.abs().max() > 0 else (float("nan"), 0.0)
     r = a[big] / b[big]
     med = r.median().item()
     dev = ((r - med).abs().max() / max(abs(med), 1e-300)).item()
@@ -898,6 +914,8 @@ def replay_functional(obname: str, model: Dict[str, Any], info: Any) -> Tuple[bo
             want = m0[n][0]
         else:
             want = c_rule_value(name, [m0["out"][0]] + [m0[k][0] for k in cons_in])
+        if got != got or want != want:
+            return False, f"{where}: a factor is not measurable at this size (zero reference tensor): nothing to confirm"
         return abs(got - want) > 1e-7 * abs(want), f"{where}: factor[{n}]={got!r}, rule '{name}' of unconstrained scales gives {want!r}"
     return False, f"{where}: unknown claim {claim}"
 
